@@ -62,7 +62,7 @@ CHECKS = {
     "C05": dict(level="exploration", engine="chanmodel",
         technique="runtime monitor at the Channel boundary of both cache backends against a byte-by-offset model (PRF bytes identify their origin); sequential generated op histories + concurrent writer/readers/collector/pollers under the race detector with interval-bound checks",
         text="Hundreds (quick) / thousands (thorough) of generated histories over snapshot writes, appends, rotation, size-triggered collection, reader open/read/close, writer replacement, "
-             "run-id switch/delete, incomplete snapshots, verifyCrc group; rotation and collection must actually be observed. Race reports in the anchored files are violations. Structural invariant through a hook: at quiescent points of sequential histories with an active writer the data set holds at least as many reader registrations as there are live log readers.",
+             "run-id switch/delete, incomplete snapshots, verifyCrc group; rotation and collection must actually be observed. Race reports in the anchored files are violations. Structural invariant through a hook: at quiescent points of sequential histories with an active writer the data set holds at least as many reader registrations as there are live log readers. Directed survivor histories: readers open across a reconnect that keeps the data (same id / new id) must follow the new writer, end or fail - never wait for a stored byte whose file is not where they poll for it.",
         design="DESIGN.md §3 C05", note="workloads stay inside the call protocol RedisInput uses; liveness is judged by logical quiescence (ended reader / starved-by-collector) or by a differential second reader at the stalled offset; a stall without such evidence is inconclusive"),
     "C13": dict(level="exploration", engine="fakeredis propagation",
         technique="two site doubles that propagate what a master would (rewrites, no-op omission, MULTI/EXEC) closed into a loop through two real bisync RedisOutputs; origin-tagged client writes; echo / exactly-once / look-alike / ping-pong oracles decided at two-phase sentinels",
